@@ -433,8 +433,16 @@ func (csm *ColumnSeriesMap) FilterColumns(columns []string) {
 	}
 
 	// index columns (=Epoch and Nanoseconds) are always necessary and Epoch should be the first column
+	// a name listed more than once (or an index column listed explicitly) is kept once
 	keepColumns := []string{"Epoch"}
-	keepColumns = append(keepColumns, columns...)
+	seen := map[string]struct{}{"Epoch": {}, "Nanoseconds": {}}
+	for _, column := range columns {
+		if _, ok := seen[column]; ok {
+			continue
+		}
+		seen[column] = struct{}{}
+		keepColumns = append(keepColumns, column)
+	}
 	keepColumns = append(keepColumns, "Nanoseconds")
 
 	for _, cs := range *csm {
